@@ -616,6 +616,9 @@ func (m *Model) Eval(t *Term) uint64 {
 	case OConst:
 		return t.C
 	case OVar:
+		if t.W == 0 {
+			return m.vals[t.Name] & 1
+		}
 		return m.vals[t.Name] & mask(int(t.W))
 	}
 	if v, ok := m.memo[t.id]; ok {
